@@ -2,20 +2,22 @@
    behaviour.  For every function body of the lowering language that satisfies the decidable side
    conditions `lowering_hyps` (no flags in the source; finally clauses without jumps; loops without else;
    the tie evaluates it on every generated program and records how many satisfy it), every terminating run
-   that completes or returns: the fully lowered body, started with all flags False, produces the same
-   ordered trace of user atoms and tests and consumes the same decisions, always completes normally (the
-   single function-level return is added by the frame), and do_return is True exactly when the original
-   returned. *)
+   that completes, returns or ends in an exception: the fully lowered body, started with all flags False,
+   produces the same ordered trace of user atoms and tests and consumes the same decisions; it completes
+   normally when the original completes or returns (the single function-level return is added by the
+   frame), with do_return True exactly when the original returned, and it ends in the exception (do_return
+   False) when the original does.  Exceptions: `raise` statements, handlers dispatched by decision, see
+   Lower/Lang.v; finally clauses must complete normally. *)
 From Coq Require Import List Arith Bool.
 Import ListNotations.
 Require Import MV.Lower.Lang MV.Lower.LangProofs MV.Lower.Passes MV.Lower.BreakProofs MV.Lower.ContinueProofs
                MV.Lower.ReturnProofs MV.Lower.Compose.
 
 Theorem lowering_correct : forall b s d tr o s' d',
-  run_block b s d tr o s' d' -> lowering_hyps b = true -> o = ONormal \/ o = ORet ->
+  run_block b s d tr o s' d' -> lowering_hyps b = true -> o = ONormal \/ o = ORet \/ o = ORaise ->
   forall sl, (forall f, sl f = false) ->
-  exists sl', run_block (lowered b) sl d tr ONormal sl' d'
-              /\ (o = ORet -> sl' rflag = true) /\ (o = ONormal -> sl' rflag = false).
+  exists sl', run_block (lowered b) sl d tr (ro o) sl' d'
+              /\ (o = ORet -> sl' rflag = true) /\ (o <> ORet -> sl' rflag = false).
 Proof. exact lowering_correct_lemma. Qed.
 
 (* non-vacuity: while t1: try: if t2: break; if t3: continue; if t4: return r5; a6  else: a7  finally: a8 ; a9 *)
@@ -30,5 +32,24 @@ Example ex_l_runs :
   exec_block 80 ex_l (fun _ => false) [1; 0; 1; 1; 0; 0; 0; 1; 0; 0; 1] = ([1; 2; 3; 8; 1; 2; 3; 4; 6; 7; 8; 1; 2; 3; 4; 5; 8], ORet, (fun _ => false), [])
   /\ (let '(tr, o, s, d) := exec_block 200 (lowered ex_l) (fun _ => false) [1; 0; 1; 1; 0; 0; 0; 1; 0; 0; 1] in (tr, o, s rflag, d))
      = ([1; 2; 3; 8; 1; 2; 3; 4; 6; 7; 8; 1; 2; 3; 4; 5; 8], ONormal, true, []).
+Proof. vm_compute; split; reflexivity. Qed.
+(* non-vacuity with exceptions: while t1: try: (if t2: break); raise r3  except: (if t4: continue); (if t5: return r6); a7
+                                        finally: a8 ;  a9 *)
+Definition ex_le : block :=
+  BCons (SWhile (CUser 1) (BCons (STry
+     (BCons (SIf (CUser 2) (BCons SBreak BNil) BNil) (BCons (SRaise 3) BNil))
+     (HCons (BCons (SIf (CUser 4) (BCons SContinue BNil) BNil) (BCons (SIf (CUser 5) (BCons (SReturn 6) BNil) BNil) (BCons (SAtom 7) BNil))) HNil)
+     BNil (BCons (SAtom 8) BNil)) BNil) BNil) (BCons (SAtom 9) BNil).
+Example ex_le_hyps : lowering_hyps ex_le = true.
+Proof. vm_compute; reflexivity. Qed.
+Example ex_le_runs :
+  exec_block 80 ex_le (fun _ => false) [1; 0; 0; 1; 1; 0; 0; 0; 0; 1; 0; 0; 0; 1] = ([1; 2; 3; 4; 8; 1; 2; 3; 4; 5; 7; 8; 1; 2; 3; 4; 5; 6; 8], ORet, (fun _ => false), [])
+  /\ (let '(tr, o, s, d) := exec_block 200 (lowered ex_le) (fun _ => false) [1; 0; 0; 1; 1; 0; 0; 0; 0; 1; 0; 0; 0; 1] in (tr, o, s rflag, d))
+     = ([1; 2; 3; 4; 8; 1; 2; 3; 4; 5; 7; 8; 1; 2; 3; 4; 5; 6; 8], ONormal, true, []).
+Proof. vm_compute; split; reflexivity. Qed.
+(* the exception is taken by no handler (decision 1): it leaves the loop and the function, after the finally clause *)
+Example ex_le_uncaught :
+  exec_block 80 ex_le (fun _ => false) [1; 0; 1] = ([1; 2; 3; 8], ORaise, (fun _ => false), [])
+  /\ (let '(tr, o, s, d) := exec_block 200 (lowered ex_le) (fun _ => false) [1; 0; 1] in (tr, o, s rflag, d)) = ([1; 2; 3; 8], ORaise, false, []).
 Proof. vm_compute; split; reflexivity. Qed.
 Print Assumptions lowering_correct.
